@@ -210,7 +210,7 @@ package varmq
 //@   ensures [queues]  w.queues.Manager.items == old(w.queues.Manager.items) && (forall i int :: 0 <= i && i < len(w.queues.Manager.items) ==> w.queues.Manager.items[i] == old(w.queues.Manager.items[i]))
 // C06 (finding F5): an entry consumed without being dispatched (closed job, undecodable or foreign entry) may have been the last pending
 // one; the barrier waiters are released exactly as after a completed job, or they would sleep on with nothing pending and nothing in flight.
-//@   ensures [wake-consumed@C06] w.$dispatched == old(w.$dispatched) && (exists q ref :: $deq(q) == old($deq(q)) + 1) && w.curProcessing == 0
+//@   ensures [wake-consumed] w.$dispatched == old(w.$dispatched) && (exists q ref :: $deq(q) == old($deq(q)) + 1) && w.curProcessing == 0
 //@                         && (w.status == paused || (w.status == running && @sumLen(w.queues.Manager.items, len(w.queues.Manager.items)) == 0))
 //@                         ==> $broadcasts[w.waiters] == old($broadcasts[w.waiters]) + 1
 // the in-flight count handed to releaseWaiters is read AFTER the entry was taken off the queue (a snapshot from before the dequeue can
@@ -219,7 +219,7 @@ package varmq
 //@   ghost after load curProcessing: $pf := true
 //@   ghost after call invoke.Dequeue: $pf := false
 //@   ghost after call invoke.DequeueWithAckId: $pf := false
-//@   assert [release-with-fresh-count@C06] before call varmq.worker.releaseWaiters: $pf
+//@   assert [release-with-fresh-count] before call varmq.worker.releaseWaiters: $pf
 //@   ghost before call varmq.worker.releaseWaiters: assume forall k int {@sumLen(w.queues.Manager.items, k)} :: 0 <= k && k <= len(w.queues.Manager.items) ==> @sumLen(w.queues.Manager.items, k) <= MaxInt
 //@   assert [not-closed]      before call invoke.changeStatus: $jstatus(j) != closed
 //@   assert [bookkeeping]     before call varmq.worker.sendToNextChannel: $jstatus(j) == processing && $jackid(j) == ackId && w.curProcessing == old(w.curProcessing) + 1
@@ -299,6 +299,8 @@ package varmq
 // WaitUntilFinished returns only when the wait predicate is false. While it is parked other goroutines may complete jobs, dispatch jobs and
 // accept submissions (the `modifies` list is what they may change; `rely` is what they preserve); lifecycle calls are not interleaved (SEQ).
 //@ func worker.WaitUntilFinished
+// the wait predicate is evaluated with the condition variable's mutex held (otherwise the last broadcast can fall between the check and the park)
+//@   assert [predicate-under-lock] before call varmq.worker.WaitUntilFinished$1: $held(w.mx)
 //@   props C06 C09 C14 CORE
 //@   requires w != nil && w.waiters != nil && PoolOK(w) && QM(w) && (forall q ref {$lenOf(q)} :: $lenOf(q) >= 0)
 //@   modifies w.curProcessing, $lenOf, $alloc, linkedlist.Node.next, linkedlist.Node.prev, w.pool.List.len, w.pool.List.$at, w.pool.List.$pos, w.pool.List.$in, key CH:sent<, key CH:rcvd<, key CHV:<, w.$nodes, w.$dispatched, w.$freed
@@ -409,8 +411,8 @@ package varmq
 // then never see its own, already cancelled context still installed and stop the restarted worker.
 //@   ghost after call sync.RWMutex.Unlock: w.$lockEpoch := w.$lockEpoch + 1
 //@   ghost after call funcvalue: w.$cancelEpoch := w.$lockEpoch
-//@   assert [cancel-locked@C14] after call funcvalue: $held(w.mx)
-//@   assert [rearm-atomic@C14] after store ctx: $held(w.mx) && w.$cancelEpoch == w.$lockEpoch
+//@   assert [cancel-locked] after call funcvalue: $held(w.mx)
+//@   assert [rearm-atomic] after store ctx: $held(w.mx) && w.$cancelEpoch == w.$lockEpoch
 
 // TunePool: only a running worker can be tuned; the limit becomes withSafeConcurrency(n); growing raises the signal; shrinking (without
 // idle expiry) retires at most old-new idle workers and never goes below the idle minimum that was available.
@@ -498,7 +500,7 @@ package varmq
 
 //@ func workerBinder.WithQueue
 //@   assert [registered-before-start] before call varmq.worker.start: len(wb.worker.queues.Manager.items) == old(len(wb.worker.queues.Manager.items)) + 1
-//@   props C14 C15 C02 C18
+//@   props C14 C15 C02 C18 C09
 //@   requires wb.worker != nil && RI_worker(wb.worker) && len(wb.worker.queues.Manager.items) < MaxInt - 2 && wb.worker.Configs.idleWorkerExpiryDuration >= 0 && len(wb.worker.tickers) < MaxInt && q != nil
 //@   modifies wb.worker.status, $alloc, $spawned, wb.worker.$disp, wb.worker.$reapers, wb.worker.$listeners, wb.worker.$nodes, wb.worker.tickers, wb.worker.tickers[**], key G:$tickersLive, $chan(wb.worker.eventLoopSignal), linkedlist.Node.next, linkedlist.Node.prev, wb.worker.pool.List.len, wb.worker.pool.List.$at, wb.worker.pool.List.$pos, wb.worker.pool.List.$in, wb.worker.queues.Manager.items, wb.worker.queues.Manager.items[**]
 //@   ensures [once]      len(wb.worker.queues.Manager.items) == old(len(wb.worker.queues.Manager.items)) + 1 && wb.worker.queues.Manager.items[old(len(wb.worker.queues.Manager.items))] == q
@@ -508,7 +510,7 @@ package varmq
 //@   ensures [ri]        RI_worker(wb.worker)
 
 //@ func workerBinder.BindQueue
-//@   props C14 C15 C02 C18
+//@   props C14 C15 C02 C18 C09
 //@   requires wb.worker != nil && RI_worker(wb.worker) && len(wb.worker.queues.Manager.items) < MaxInt - 2 && wb.worker.Configs.idleWorkerExpiryDuration >= 0 && len(wb.worker.tickers) < MaxInt
 //@   modifies wb.worker.status, $alloc, $spawned, wb.worker.$disp, wb.worker.$reapers, wb.worker.$listeners, wb.worker.$nodes, wb.worker.tickers, wb.worker.tickers[**], key G:$tickersLive, $chan(wb.worker.eventLoopSignal), linkedlist.Node.next, linkedlist.Node.prev, wb.worker.pool.List.len, wb.worker.pool.List.$at, wb.worker.pool.List.$pos, wb.worker.pool.List.$in, wb.worker.queues.Manager.items, wb.worker.queues.Manager.items[**]
 //@   ensures [once]      len(wb.worker.queues.Manager.items) == old(len(wb.worker.queues.Manager.items)) + 1
@@ -519,7 +521,7 @@ package varmq
 
 //@ func workerBinder.WithPriorityQueue
 //@   assert [registered-before-start] before call varmq.worker.start: len(wb.worker.queues.Manager.items) == old(len(wb.worker.queues.Manager.items)) + 1
-//@   props C14 C15 C02 C18
+//@   props C14 C15 C02 C18 C09
 //@   requires wb.worker != nil && RI_worker(wb.worker) && len(wb.worker.queues.Manager.items) < MaxInt - 2 && wb.worker.Configs.idleWorkerExpiryDuration >= 0 && len(wb.worker.tickers) < MaxInt && pq != nil
 //@   modifies wb.worker.status, $alloc, $spawned, wb.worker.$disp, wb.worker.$reapers, wb.worker.$listeners, wb.worker.$nodes, wb.worker.tickers, wb.worker.tickers[**], key G:$tickersLive, $chan(wb.worker.eventLoopSignal), linkedlist.Node.next, linkedlist.Node.prev, wb.worker.pool.List.len, wb.worker.pool.List.$at, wb.worker.pool.List.$pos, wb.worker.pool.List.$in, wb.worker.queues.Manager.items, wb.worker.queues.Manager.items[**]
 //@   ensures [once]      len(wb.worker.queues.Manager.items) == old(len(wb.worker.queues.Manager.items)) + 1 && wb.worker.queues.Manager.items[old(len(wb.worker.queues.Manager.items))] == pq
@@ -529,7 +531,7 @@ package varmq
 //@   ensures [ri]        RI_worker(wb.worker)
 
 //@ func workerBinder.BindPriorityQueue
-//@   props C14 C15 C02 C18
+//@   props C14 C15 C02 C18 C09
 //@   requires wb.worker != nil && RI_worker(wb.worker) && len(wb.worker.queues.Manager.items) < MaxInt - 2 && wb.worker.Configs.idleWorkerExpiryDuration >= 0 && len(wb.worker.tickers) < MaxInt
 //@   modifies wb.worker.status, $alloc, $spawned, wb.worker.$disp, wb.worker.$reapers, wb.worker.$listeners, wb.worker.$nodes, wb.worker.tickers, wb.worker.tickers[**], key G:$tickersLive, $chan(wb.worker.eventLoopSignal), linkedlist.Node.next, linkedlist.Node.prev, wb.worker.pool.List.len, wb.worker.pool.List.$at, wb.worker.pool.List.$pos, wb.worker.pool.List.$in, wb.worker.queues.Manager.items, wb.worker.queues.Manager.items[**]
 //@   ensures [once]      len(wb.worker.queues.Manager.items) == old(len(wb.worker.queues.Manager.items)) + 1
@@ -539,7 +541,7 @@ package varmq
 //@   ensures [ri]        RI_worker(wb.worker)
 
 //@ func errWorkerBinder.WithQueue
-//@   props C14 C15 C02 C18
+//@   props C14 C15 C02 C18 C09
 //@   requires ewb.worker != nil && RI_worker(ewb.worker) && len(ewb.worker.queues.Manager.items) < MaxInt - 2 && ewb.worker.Configs.idleWorkerExpiryDuration >= 0 && len(ewb.worker.tickers) < MaxInt && q != nil
 //@   modifies ewb.worker.status, $alloc, $spawned, ewb.worker.$disp, ewb.worker.$reapers, ewb.worker.$listeners, ewb.worker.$nodes, ewb.worker.tickers, ewb.worker.tickers[**], key G:$tickersLive, $chan(ewb.worker.eventLoopSignal), linkedlist.Node.next, linkedlist.Node.prev, ewb.worker.pool.List.len, ewb.worker.pool.List.$at, ewb.worker.pool.List.$pos, ewb.worker.pool.List.$in, ewb.worker.queues.Manager.items, ewb.worker.queues.Manager.items[**]
 //@   ensures [once]      len(ewb.worker.queues.Manager.items) == old(len(ewb.worker.queues.Manager.items)) + 1 && ewb.worker.queues.Manager.items[old(len(ewb.worker.queues.Manager.items))] == q
@@ -549,7 +551,7 @@ package varmq
 //@   ensures [ri]        RI_worker(ewb.worker)
 
 //@ func errWorkerBinder.BindQueue
-//@   props C14 C15 C02 C18
+//@   props C14 C15 C02 C18 C09
 //@   requires ewb.worker != nil && RI_worker(ewb.worker) && len(ewb.worker.queues.Manager.items) < MaxInt - 2 && ewb.worker.Configs.idleWorkerExpiryDuration >= 0 && len(ewb.worker.tickers) < MaxInt
 //@   modifies ewb.worker.status, $alloc, $spawned, ewb.worker.$disp, ewb.worker.$reapers, ewb.worker.$listeners, ewb.worker.$nodes, ewb.worker.tickers, ewb.worker.tickers[**], key G:$tickersLive, $chan(ewb.worker.eventLoopSignal), linkedlist.Node.next, linkedlist.Node.prev, ewb.worker.pool.List.len, ewb.worker.pool.List.$at, ewb.worker.pool.List.$pos, ewb.worker.pool.List.$in, ewb.worker.queues.Manager.items, ewb.worker.queues.Manager.items[**]
 //@   ensures [once]      len(ewb.worker.queues.Manager.items) == old(len(ewb.worker.queues.Manager.items)) + 1
@@ -559,7 +561,7 @@ package varmq
 //@   ensures [ri]        RI_worker(ewb.worker)
 
 //@ func errWorkerBinder.WithPriorityQueue
-//@   props C14 C15 C02 C18
+//@   props C14 C15 C02 C18 C09
 //@   requires ewb.worker != nil && RI_worker(ewb.worker) && len(ewb.worker.queues.Manager.items) < MaxInt - 2 && ewb.worker.Configs.idleWorkerExpiryDuration >= 0 && len(ewb.worker.tickers) < MaxInt && pq != nil
 //@   modifies ewb.worker.status, $alloc, $spawned, ewb.worker.$disp, ewb.worker.$reapers, ewb.worker.$listeners, ewb.worker.$nodes, ewb.worker.tickers, ewb.worker.tickers[**], key G:$tickersLive, $chan(ewb.worker.eventLoopSignal), linkedlist.Node.next, linkedlist.Node.prev, ewb.worker.pool.List.len, ewb.worker.pool.List.$at, ewb.worker.pool.List.$pos, ewb.worker.pool.List.$in, ewb.worker.queues.Manager.items, ewb.worker.queues.Manager.items[**]
 //@   ensures [once]      len(ewb.worker.queues.Manager.items) == old(len(ewb.worker.queues.Manager.items)) + 1 && ewb.worker.queues.Manager.items[old(len(ewb.worker.queues.Manager.items))] == pq
@@ -569,7 +571,7 @@ package varmq
 //@   ensures [ri]        RI_worker(ewb.worker)
 
 //@ func errWorkerBinder.BindPriorityQueue
-//@   props C14 C15 C02 C18
+//@   props C14 C15 C02 C18 C09
 //@   requires ewb.worker != nil && RI_worker(ewb.worker) && len(ewb.worker.queues.Manager.items) < MaxInt - 2 && ewb.worker.Configs.idleWorkerExpiryDuration >= 0 && len(ewb.worker.tickers) < MaxInt
 //@   modifies ewb.worker.status, $alloc, $spawned, ewb.worker.$disp, ewb.worker.$reapers, ewb.worker.$listeners, ewb.worker.$nodes, ewb.worker.tickers, ewb.worker.tickers[**], key G:$tickersLive, $chan(ewb.worker.eventLoopSignal), linkedlist.Node.next, linkedlist.Node.prev, ewb.worker.pool.List.len, ewb.worker.pool.List.$at, ewb.worker.pool.List.$pos, ewb.worker.pool.List.$in, ewb.worker.queues.Manager.items, ewb.worker.queues.Manager.items[**]
 //@   ensures [once]      len(ewb.worker.queues.Manager.items) == old(len(ewb.worker.queues.Manager.items)) + 1
@@ -579,7 +581,7 @@ package varmq
 //@   ensures [ri]        RI_worker(ewb.worker)
 
 //@ func resultWorkerBinder.WithQueue
-//@   props C14 C15 C02 C18
+//@   props C14 C15 C02 C18 C09
 //@   requires rwb.worker != nil && RI_worker(rwb.worker) && len(rwb.worker.queues.Manager.items) < MaxInt - 2 && rwb.worker.Configs.idleWorkerExpiryDuration >= 0 && len(rwb.worker.tickers) < MaxInt && q != nil
 //@   modifies rwb.worker.status, $alloc, $spawned, rwb.worker.$disp, rwb.worker.$reapers, rwb.worker.$listeners, rwb.worker.$nodes, rwb.worker.tickers, rwb.worker.tickers[**], key G:$tickersLive, $chan(rwb.worker.eventLoopSignal), linkedlist.Node.next, linkedlist.Node.prev, rwb.worker.pool.List.len, rwb.worker.pool.List.$at, rwb.worker.pool.List.$pos, rwb.worker.pool.List.$in, rwb.worker.queues.Manager.items, rwb.worker.queues.Manager.items[**]
 //@   ensures [once]      len(rwb.worker.queues.Manager.items) == old(len(rwb.worker.queues.Manager.items)) + 1 && rwb.worker.queues.Manager.items[old(len(rwb.worker.queues.Manager.items))] == q
@@ -589,7 +591,7 @@ package varmq
 //@   ensures [ri]        RI_worker(rwb.worker)
 
 //@ func resultWorkerBinder.BindQueue
-//@   props C14 C15 C02 C18
+//@   props C14 C15 C02 C18 C09
 //@   requires rwb.worker != nil && RI_worker(rwb.worker) && len(rwb.worker.queues.Manager.items) < MaxInt - 2 && rwb.worker.Configs.idleWorkerExpiryDuration >= 0 && len(rwb.worker.tickers) < MaxInt
 //@   modifies rwb.worker.status, $alloc, $spawned, rwb.worker.$disp, rwb.worker.$reapers, rwb.worker.$listeners, rwb.worker.$nodes, rwb.worker.tickers, rwb.worker.tickers[**], key G:$tickersLive, $chan(rwb.worker.eventLoopSignal), linkedlist.Node.next, linkedlist.Node.prev, rwb.worker.pool.List.len, rwb.worker.pool.List.$at, rwb.worker.pool.List.$pos, rwb.worker.pool.List.$in, rwb.worker.queues.Manager.items, rwb.worker.queues.Manager.items[**]
 //@   ensures [once]      len(rwb.worker.queues.Manager.items) == old(len(rwb.worker.queues.Manager.items)) + 1
@@ -599,7 +601,7 @@ package varmq
 //@   ensures [ri]        RI_worker(rwb.worker)
 
 //@ func resultWorkerBinder.WithPriorityQueue
-//@   props C14 C15 C02 C18
+//@   props C14 C15 C02 C18 C09
 //@   requires rwb.worker != nil && RI_worker(rwb.worker) && len(rwb.worker.queues.Manager.items) < MaxInt - 2 && rwb.worker.Configs.idleWorkerExpiryDuration >= 0 && len(rwb.worker.tickers) < MaxInt && pq != nil
 //@   modifies rwb.worker.status, $alloc, $spawned, rwb.worker.$disp, rwb.worker.$reapers, rwb.worker.$listeners, rwb.worker.$nodes, rwb.worker.tickers, rwb.worker.tickers[**], key G:$tickersLive, $chan(rwb.worker.eventLoopSignal), linkedlist.Node.next, linkedlist.Node.prev, rwb.worker.pool.List.len, rwb.worker.pool.List.$at, rwb.worker.pool.List.$pos, rwb.worker.pool.List.$in, rwb.worker.queues.Manager.items, rwb.worker.queues.Manager.items[**]
 //@   ensures [once]      len(rwb.worker.queues.Manager.items) == old(len(rwb.worker.queues.Manager.items)) + 1 && rwb.worker.queues.Manager.items[old(len(rwb.worker.queues.Manager.items))] == pq
@@ -609,7 +611,7 @@ package varmq
 //@   ensures [ri]        RI_worker(rwb.worker)
 
 //@ func resultWorkerBinder.BindPriorityQueue
-//@   props C14 C15 C02 C18
+//@   props C14 C15 C02 C18 C09
 //@   requires rwb.worker != nil && RI_worker(rwb.worker) && len(rwb.worker.queues.Manager.items) < MaxInt - 2 && rwb.worker.Configs.idleWorkerExpiryDuration >= 0 && len(rwb.worker.tickers) < MaxInt
 //@   modifies rwb.worker.status, $alloc, $spawned, rwb.worker.$disp, rwb.worker.$reapers, rwb.worker.$listeners, rwb.worker.$nodes, rwb.worker.tickers, rwb.worker.tickers[**], key G:$tickersLive, $chan(rwb.worker.eventLoopSignal), linkedlist.Node.next, linkedlist.Node.prev, rwb.worker.pool.List.len, rwb.worker.pool.List.$at, rwb.worker.pool.List.$pos, rwb.worker.pool.List.$in, rwb.worker.queues.Manager.items, rwb.worker.queues.Manager.items[**]
 //@   ensures [once]      len(rwb.worker.queues.Manager.items) == old(len(rwb.worker.queues.Manager.items)) + 1
@@ -620,7 +622,7 @@ package varmq
 
 //@ func workerBinder.WithPersistentQueue
 //@   assert [registered-before-start] before call varmq.worker.start: len(wb.worker.queues.Manager.items) == old(len(wb.worker.queues.Manager.items)) + 1
-//@   props C14 C15 C02 C18 C11
+//@   props C14 C15 C02 C18 C11 C09
 //@   requires wb.worker != nil && RI_worker(wb.worker) && len(wb.worker.queues.Manager.items) < MaxInt - 2 && wb.worker.Configs.idleWorkerExpiryDuration >= 0 && len(wb.worker.tickers) < MaxInt && pq != nil
 //@   modifies wb.worker.status, $alloc, $spawned, wb.worker.$disp, wb.worker.$reapers, wb.worker.$listeners, wb.worker.$nodes, wb.worker.tickers, wb.worker.tickers[**], key G:$tickersLive, $chan(wb.worker.eventLoopSignal), linkedlist.Node.next, linkedlist.Node.prev, wb.worker.pool.List.len, wb.worker.pool.List.$at, wb.worker.pool.List.$pos, wb.worker.pool.List.$in, wb.worker.queues.Manager.items, wb.worker.queues.Manager.items[**]
 //@   ensures [once]      len(wb.worker.queues.Manager.items) == old(len(wb.worker.queues.Manager.items)) + 1 && wb.worker.queues.Manager.items[old(len(wb.worker.queues.Manager.items))] == pq
@@ -631,7 +633,7 @@ package varmq
 
 //@ func workerBinder.WithPersistentPriorityQueue
 //@   assert [registered-before-start] before call varmq.worker.start: len(wb.worker.queues.Manager.items) == old(len(wb.worker.queues.Manager.items)) + 1
-//@   props C14 C15 C02 C18 C11
+//@   props C14 C15 C02 C18 C11 C09
 //@   requires wb.worker != nil && RI_worker(wb.worker) && len(wb.worker.queues.Manager.items) < MaxInt - 2 && wb.worker.Configs.idleWorkerExpiryDuration >= 0 && len(wb.worker.tickers) < MaxInt && pq != nil && len(wb.worker.queues.Manager.items) < MaxInt - 1
 //@   modifies wb.worker.status, $alloc, $spawned, wb.worker.$disp, wb.worker.$reapers, wb.worker.$listeners, wb.worker.$nodes, wb.worker.tickers, wb.worker.tickers[**], key G:$tickersLive, $chan(wb.worker.eventLoopSignal), linkedlist.Node.next, linkedlist.Node.prev, wb.worker.pool.List.len, wb.worker.pool.List.$at, wb.worker.pool.List.$pos, wb.worker.pool.List.$in, wb.worker.queues.Manager.items, wb.worker.queues.Manager.items[**]
 //@   ensures [once]      len(wb.worker.queues.Manager.items) == old(len(wb.worker.queues.Manager.items)) + 1 && wb.worker.queues.Manager.items[old(len(wb.worker.queues.Manager.items))] == pq
@@ -642,7 +644,7 @@ package varmq
 
 //@ func workerBinder.WithDistributedQueue
 //@   assert [registered-before-start] before call varmq.worker.start: len(wb.worker.queues.Manager.items) == old(len(wb.worker.queues.Manager.items)) + 1
-//@   props C14 C15 C02 C18 C11
+//@   props C14 C15 C02 C18 C11 C09
 //@   requires wb.worker != nil && RI_worker(wb.worker) && len(wb.worker.queues.Manager.items) < MaxInt - 2 && wb.worker.Configs.idleWorkerExpiryDuration >= 0 && len(wb.worker.tickers) < MaxInt && dq != nil
 //@   modifies wb.worker.status, $alloc, $spawned, wb.worker.$disp, wb.worker.$reapers, wb.worker.$listeners, wb.worker.$nodes, wb.worker.tickers, wb.worker.tickers[**], key G:$tickersLive, $chan(wb.worker.eventLoopSignal), linkedlist.Node.next, linkedlist.Node.prev, wb.worker.pool.List.len, wb.worker.pool.List.$at, wb.worker.pool.List.$pos, wb.worker.pool.List.$in, wb.worker.queues.Manager.items, wb.worker.queues.Manager.items[**], $subs(dq)
 //@   ensures [once]      len(wb.worker.queues.Manager.items) == old(len(wb.worker.queues.Manager.items)) + 1 && wb.worker.queues.Manager.items[old(len(wb.worker.queues.Manager.items))] == dq
@@ -654,7 +656,7 @@ package varmq
 
 //@ func workerBinder.WithDistributedPriorityQueue
 //@   assert [registered-before-start] before call varmq.worker.start: len(wb.worker.queues.Manager.items) == old(len(wb.worker.queues.Manager.items)) + 1
-//@   props C14 C15 C02 C18 C11
+//@   props C14 C15 C02 C18 C11 C09
 //@   requires wb.worker != nil && RI_worker(wb.worker) && len(wb.worker.queues.Manager.items) < MaxInt - 2 && wb.worker.Configs.idleWorkerExpiryDuration >= 0 && len(wb.worker.tickers) < MaxInt && dpq != nil
 //@   modifies wb.worker.status, $alloc, $spawned, wb.worker.$disp, wb.worker.$reapers, wb.worker.$listeners, wb.worker.$nodes, wb.worker.tickers, wb.worker.tickers[**], key G:$tickersLive, $chan(wb.worker.eventLoopSignal), linkedlist.Node.next, linkedlist.Node.prev, wb.worker.pool.List.len, wb.worker.pool.List.$at, wb.worker.pool.List.$pos, wb.worker.pool.List.$in, wb.worker.queues.Manager.items, wb.worker.queues.Manager.items[**], $subs(dpq)
 //@   ensures [once]      len(wb.worker.queues.Manager.items) == old(len(wb.worker.queues.Manager.items)) + 1 && wb.worker.queues.Manager.items[old(len(wb.worker.queues.Manager.items))] == dpq
